@@ -67,7 +67,9 @@ Fixpoint work_all (f : pfacts) (fuel : nat) (s : state) : option state :=
     match s_a s with
     | A_work [] => stepping f (L_analysis 0 0) s (at_a 1)
     | A_work (_ :: _) =>
-        match step f (L_analysis (length (s_vs s)) (pf_vcap_min f)) s with
+        (* the validators belong to other threads: forget them, so that every dispatch opens a fresh channel (never blocks) and the
+           replay stays linear in the length of the trace *)
+        match step f (L_analysis 0 (pf_vcap_min f)) (set_vs [] s) with
         | Some s' => work_all f n s'
         | None => None
         end
